@@ -335,6 +335,25 @@ func (vm valueModel) typed(t cty.Type, expr hclsyntax.Expression, anyExpr bool, 
 			return out, false
 		}
 		return out, true
+	case *hclsyntax.ForExpr:
+		// a for expression where a collection is expected: what is marked inside the source
+		// collection, the key and the value expression is not decided here (the element types are
+		// only approximated upstream); the condition is a boolean value
+		if !anyExpr || !(t.IsListType() || t.IsSetType() || t.IsMapType() || t == cty.DynamicPseudoType) {
+			return out, false
+		}
+		if (e.KeyExpr != nil) != (t.IsMapType() || t == cty.DynamicPseudoType) && t != cty.DynamicPseudoType {
+			return out, false // {for ...} where a list is expected or the other way round
+		}
+		for _, x := range []hclsyntax.Expression{e.CollExpr, e.KeyExpr, e.ValExpr} {
+			if x != nil && x.Range().Start.Byte < x.Range().End.Byte {
+				out.Ignore = append(out.Ignore, rg(x.Range()))
+			}
+		}
+		if e.CondExpr != nil && !elem(cty.Bool, e.CondExpr) {
+			return out, false
+		}
+		return out, true
 	case *hclsyntax.IndexExpr:
 		// coll[key] with a key that is no plain literal: what is marked inside the collection is
 		// not decided; the key is a value used as a string / number key
